@@ -83,6 +83,9 @@ func (s *SPDX23) Serialize(bom *sbom.Document, _ *native.SerializeOptions, _ int
 	}
 
 	for _, t := range bom.Metadata.Tools {
+		if t == nil {
+			continue
+		}
 		// TODO(degradation): SPDX is prescriptive on how this field is structured
 		// it is a tool identifier word separated from the version with a dash.
 		// We should transform the field value
@@ -137,6 +140,9 @@ func (s *SPDX23) Serialize(bom *sbom.Document, _ *native.SerializeOptions, _ int
 func buildRelationships(bom *sbom.Document) ([]*spdx.Relationship, error) { //nolint:unparam
 	relationships := []*spdx.Relationship{}
 	for _, e := range bom.NodeList.Edges {
+		if e == nil {
+			continue
+		}
 		for _, dest := range e.To {
 			rel := spdx.Relationship{
 				RefA:         common.MakeDocElementID("", e.From),
@@ -153,7 +159,7 @@ func buildRelationships(bom *sbom.Document) ([]*spdx.Relationship, error) { //no
 func buildFiles(bom *sbom.Document) ([]*spdx.File, error) { //nolint:unparam
 	files := []*spdx.File{}
 	for _, node := range bom.NodeList.Nodes {
-		if node.Type == sbom.Node_PACKAGE {
+		if node == nil || node.Type == sbom.Node_PACKAGE {
 			continue
 		}
 
@@ -197,7 +203,7 @@ func buildFiles(bom *sbom.Document) ([]*spdx.File, error) { //nolint:unparam
 func (s *SPDX23) buildPackages(bom *sbom.Document) ([]*spdx.Package, error) { //nolint:unparam
 	packages := []*spdx.Package{}
 	for _, node := range bom.NodeList.Nodes {
-		if node.Type == sbom.Node_FILE {
+		if node == nil || node.Type == sbom.Node_FILE {
 			continue
 		}
 
@@ -314,6 +320,9 @@ func (s *SPDX23) buildPackages(bom *sbom.Document) ([]*spdx.Package, error) { //
 		}
 
 		for _, e := range node.ExternalReferences {
+			if e == nil {
+				continue
+			}
 			category := s.extRefCategoryFromProtobomExtRef(e)
 
 			if e.Url == "" {
